@@ -14,6 +14,9 @@ spec -> code: Helpers_Export enumerates the scripts of Helpers_Cases (helper x E
               IpcCommand objects driven by the real run_generic_phase.  After every helper the script reports
               its exit status over the same channel and the image directory is listed.
 code -> spec: seeded random working directories / destination states / EAPIs / calls (1-4 calls per script).
+              Both directions include modes with set-uid/set-gid/sticky bits combined with -o/-g options for
+              insopts/exeopts/diropts/libopts, and `dosym -r` pairs whose directory names are string prefixes of
+              sibling names (lib/lib64, doc/doc-extra); the families tagged "all-*" are replayed in every tier.
 Both are judged by Helpers_Trace with the placement functions of Helpers.tla: RejectForbidden, AcceptValid,
 Missing, MissingKeepFile, Extra, Kind, ImpliedDir, Mode, Content, LinkText, RelativeLink, HardLink, Frame.
 
